@@ -32,12 +32,13 @@ def reference(case):
 
     def allowed_from(k):
         # the time from which the budget covers part number k (0-based); None = never
-        if k < budget:
+        # a part is supplied only while at least one WHOLE part of the budget is left (budgets may be fractional)
+        if budget - k >= 1:
             return 0
         cum = budget
         for r, q in refills:
             cum += q
-            if k < cum:
+            if cum - k >= 1:
                 return r
         return None
     while True:
